@@ -342,8 +342,14 @@ def gen_mesh_case(rng, allow_outside=True):
 
 
 def _wrap(fields, how):
-    from fieldcompare.mesh import sort, sort_cells
-    return {"plain": lambda f: f, "sort": sort, "sort_cells": sort_cells}[how](fields)
+    """plain | sort | sort_cells | sort_points | strip_orphan_points: the TransformedMeshFields view;
+    m:<how>: the same view materialised as plain MeshFields (p6g: a plain data set stored in that order)"""
+    from fieldcompare import mesh as fcmesh
+    if how == "plain":
+        return fields
+    if how.startswith("m:"):
+        return meshgen.to_fc(meshgen.from_fc(getattr(fcmesh, how[2:])(fields)))
+    return getattr(fcmesh, how)(fields)
 
 
 def diff_entries(d):
@@ -372,10 +378,11 @@ def run_mesh_impl(c):
     """-> dict(dom_eq, out='E:<type>'|canon, domref, lms fed to the model); None if the inputs cannot be built"""
     with _quiet():
         try:
-            ref = _wrap(meshgen.to_fc(c["ref"]), c["wrap"])
-            src = _wrap(meshgen.to_fc(c["src"]), c["wrap"])
+            ref = _wrap(meshgen.to_fc(c["ref"]), c.get("wrap_r", c["wrap"]))
+            src = _wrap(meshgen.to_fc(c["src"]), c.get("wrap_s", c["wrap"]))
             # what the model sees: the data sets as exposed by the public accessors
             lref, lsrc = meshgen.from_fc(ref), meshgen.from_fc(src)
+            dig0 = (_fields_digest(ref), _fields_digest(src))
         except Exception:  # noqa: BLE001  (e.g. sorting a degenerate mesh): not a C14 case
             return None
         try:
@@ -386,14 +393,32 @@ def run_mesh_impl(c):
             d = src.diff_to(ref)
             out = canon_entries(diff_entries(d))
             domref = "1" if (d.domain is ref.domain or same_domain(d, ref)) else "0"
+            # p6g: the same call once more on the same objects, and the operands as exposed afterwards
+            try:
+                again = canon_entries(diff_entries(src.diff_to(ref)))
+            except Exception as e:  # noqa: BLE001
+                again = f"E:{type(e).__name__}"
+            changed = [side for side, obj, before in (("reference", ref, dig0[0]), ("source", src, dig0[1]))
+                       if _fields_digest(obj) != before]
             rev = None
             try:
                 rev = canon_entries(diff_entries(ref.diff_to(src)))
             except Exception as e:  # noqa: BLE001
                 rev = f"E:{type(e).__name__}"
         except Exception as e:  # noqa: BLE001
-            out, domref, rev = f"E:{type(e).__name__}", "-", None
-    return {"dom_eq": dom_eq, "out": out, "domref": domref, "lref": lref, "lsrc": lsrc, "rev": rev}
+            out, domref, rev, again, changed = f"E:{type(e).__name__}", "-", None, None, []
+    return {"dom_eq": dom_eq, "out": out, "domref": domref, "lref": lref, "lsrc": lsrc, "rev": rev, "again": again,
+            "changed": changed}
+
+
+def _fields_digest(obj):
+    """everything a mesh data set exposes through its public accessors (bytes of the arrays: NaN-safe)"""
+    def b(a):
+        a = np.ascontiguousarray(np.asarray(a))
+        return (a.dtype.str, a.shape, a.tobytes())
+    dom = obj.domain
+    return (b(dom.points), [(ct.name, b(dom.connectivity(ct))) for ct in dom.cell_types],
+            [(f.name, b(f.values)) for f in obj.point_fields], [(f.name, ct.name, b(f.values)) for f, ct in obj.cell_fields_types])
 
 
 # ---- independent oracle for what the property demands
@@ -547,6 +572,11 @@ def eval_mesh_cases(ctx, cases, tagsl):
                 bad = spec_check_mesh(im["lref"], im["lsrc"], out, im["rev"])
                 if im["domref"] != "1":
                     bad.append("the difference does not live on the reference's domain")
+                if im.get("again") is not None and im["again"] != out:
+                    bad.append("a second src.diff_to(ref) on the same two objects does not give the same difference data again")
+                if im.get("changed"):
+                    bad.append(f"diff_to changed the field values / mesh exposed by its operand(s) {im['changed']}: what a repeated "
+                               "diff (or the comparison that follows) sees is no longer the data the user passed")
                 if bad:
                     ctx.violation(c, {"out": out[:2000], "complaints": bad[:5]}, "reference minus source / NaN / reference domain",
                                   what=bad[0])
@@ -632,10 +662,26 @@ def table_entries(d):
         f"T|{meshgen._tok(f.name)}|{canon_arr(np.asarray(f.values))}" for f in d)
 
 
-def run_table_impl(c):
+def _table_digest(t):
+    return repr([(f.name, np.asarray(f.values).dtype.str, np.asarray(f.values).tolist()) for f in t])
+
+
+def run_table_impl(c, extra=None):
+    """extra (p6g): list that receives complaints about a repeated call / changed operands"""
     with _quiet():
         try:
-            return table_entries(to_table(c["src"]).diff_to(to_table(c["ref"])))
+            src, ref = to_table(c["src"]), to_table(c["ref"])
+            before = (_table_digest(src), _table_digest(ref)) if extra is not None else None
+            out = table_entries(src.diff_to(ref))
+            if extra is not None:
+                try:
+                    if table_entries(src.diff_to(ref)) != out:
+                        extra.append("a second src.diff_to(ref) on the same two tables does not give the same difference table again")
+                except Exception as e:  # noqa: BLE001
+                    extra.append(f"a second src.diff_to(ref) on the same two tables raised {type(e).__name__}")
+                if (_table_digest(src), _table_digest(ref)) != before:
+                    extra.append("diff_to changed the columns exposed by its operands")
+            return out
         except Exception as e:  # noqa: BLE001
             return f"E:{type(e).__name__}"
 
@@ -671,11 +717,12 @@ def spec_check_table(lref, lsrc, out):
 
 
 def eval_table_cases(ctx, cases, tagsl):
-    outs = [run_table_impl(c) for c in cases]
+    extras = [[] for _ in cases]
+    outs = [run_table_impl(c, x) for c, x in zip(cases, extras)]
     logical = [(logical_table(c["ref"]), logical_table(c["src"])) for c in cases]
     lines = [f"c14tab {enc_table(lr)} {enc_table(ls)}" for lr, ls in logical]
     replies = ctx.lean(lines) if ctx.driver_ok else [None] * len(cases)
-    for c, tags, out, (lr, ls), rep in zip(cases, tagsl, outs, logical, replies):
+    for c, tags, out, (lr, ls), rep, extra in zip(cases, tagsl, outs, logical, replies, extras):
         raised = out.startswith("E:")
         inside = rep is not None and rep.get("hyp") == "1"
         ctx.case(("table", out, enc_table(lr), enc_table(ls)),
@@ -694,7 +741,7 @@ def eval_table_cases(ctx, cases, tagsl):
             if raised:
                 ctx.violation(c, out, "a difference table", what="TabularFields.diff_to raised on numeric tables")
             else:
-                bad = spec_check_table(lr, ls, out)
+                bad = spec_check_table(lr, ls, out) + extra
                 if bad:
                     ctx.violation(c, {"out": out[:2000], "complaints": bad[:5]}, "reference minus source / NaN tail", what=bad[0])
 
@@ -757,19 +804,34 @@ def check_cli_mesh(ctx, c, workdir):
     """returns (tags, complaints, sub_lines, expected_entries) — the arithmetic is checked through `c14sub`"""
     from fieldcompare.io import write, read_field_data
     tags, bad = [], []
+    lay = c.get("layout") or {}
+    sdir, rdir = os.path.join(workdir, lay.get("sdir", "")), os.path.join(workdir, lay.get("rdir", ""))
+    os.makedirs(sdir, exist_ok=True)
+    os.makedirs(rdir, exist_ok=True)
     with _quiet():
-        fa = write(meshgen.to_fc(c["a"]), os.path.join(workdir, "res"))
-        fb = write(meshgen.to_fc(c["b"]), os.path.join(workdir, "ref"))
-    before = sorted(os.listdir(workdir))
-    rc, log = run_cli(["file", fa, fb, "--diff"] + c.get("opts", []))
-    after = sorted(os.listdir(workdir))
-    new = [f for f in after if f not in before]
-    expected_name = "diff_" + os.path.basename(fa) + ".vtu"
+        fa = write(meshgen.to_fc(c["a"]), os.path.join(sdir, lay.get("sname", "res")))
+        fb = write(meshgen.to_fc(c["b"]), os.path.join(rdir, lay.get("rname", "ref")))
+
+    def listing():
+        return sorted(os.path.relpath(os.path.join(root, f), workdir) for root, _, files in os.walk(workdir) for f in files)
+    before = listing()
+    cwd = os.getcwd()
+    try:
+        if lay.get("rel"):      # p6g: relative paths, the working directory is the case's directory
+            os.chdir(workdir)
+            rc, log = run_cli(["file", os.path.relpath(fa, workdir), os.path.relpath(fb, workdir), "--diff"] + c.get("opts", []))
+        else:
+            rc, log = run_cli(["file", fa, fb, "--diff"] + c.get("opts", []))
+    finally:
+        os.chdir(cwd)
+    new = [f for f in listing() if f not in before]
+    expected_name = os.path.relpath(os.path.join(os.path.dirname(fa), "diff_" + os.path.basename(fa) + ".vtu"), workdir)
     if new != [expected_name]:
-        return tags, [f"files created by --diff: {new}, expected [{expected_name}] (rc={rc}; log tail: {log[-300:]})"], [], []
+        return tags, [f"files created by --diff: {new}, expected [{expected_name}] next to the source file (rc={rc}; log tail: {log[-300:]})"], [], []
+    expected_name = os.path.join(workdir, expected_name)
     with _quiet():
         a_in, b_in = lm_nan(read_field_data(fa)), lm_nan(read_field_data(fb))
-        d = lm_nan(read_field_data(os.path.join(workdir, expected_name)))
+        d = lm_nan(read_field_data(expected_name))
     ma, mb, md = content_maps(a_in), content_maps(b_in), content_maps(d)
     if ma is None or mb is None or md is None:
         return ["cli-skipped-coincident"], [], [], []
@@ -997,6 +1059,240 @@ def eval_cli_csv_cases(ctx, cases, tagsl, workroot):
                           "diff CSV = reference minus source, NaN tail", what=bad[0])
 
 
+# ---------------------------------------------------------------- phase 6 (G2): directed batches (notes/PHASE6_G2_C14.md)
+
+NAMES_P6 = ["", " ", "a", "ab", "abc", "A", "p", "p ", " p", "0", "1e5", "nan", "é", "e\u0301", "Δp", "温度", "a/b", "a:b", "a.b", "a=b", "'a'", "a @ b", "a @ b @ c", " @ ", "@", "a@b", "a @", "@ a", "a @ QUAD", "a @ PIXEL", "QUAD",
+            "x @ VOXEL", "*", "?", "[a]", "a*", "{a}", "%s", "velocity", "velocity_x", "Velocity", "x" * 200]
+
+
+def many_type_meshes():
+    """hand-made meshes with 5-6 cell types in ONE mesh incl. pixel+quad resp. voxel+hexahedron; distinct, well separated points"""
+    m2 = {"dim": 2,
+          "points": [[0.0, 0.0], [1.0, 0.0], [2.0, 0.0], [3.0, 0.0], [0.0, 1.0], [1.0, 1.0], [2.0, 1.0], [3.0, 1.0], [4.0, 0.5],
+                     [5.0, 2.5]],
+          "cells": [["PIXEL", [[0, 1, 4, 5]]], ["QUAD", [[1, 2, 6, 5]]], ["TRIANGLE", [[2, 3, 7], [2, 7, 6]]],
+                    ["LINE", [[3, 8], [7, 8]]], ["VERTEX", [[8], [9]]]], "pf": [], "cf": []}
+    p3 = [[float(x), float(y), float(z)] for z in (0, 1) for y in (0, 1) for x in (0, 1, 2, 3)]
+    m3 = {"dim": 3, "points": p3 + [[1.5, 0.5, 2.0], [5.0, 5.0, 5.0], [6.0, 5.5, 5.25]],
+          "cells": [["VOXEL", [[0, 1, 4, 5, 8, 9, 12, 13]]], ["HEXAHEDRON", [[1, 2, 6, 5, 9, 10, 14, 13]]],
+                    ["TETRA", [[2, 3, 7, 11], [3, 7, 11, 15]]], ["PYRAMID", [[9, 10, 14, 13, 16]]],
+                    ["QUAD", [[8, 9, 13, 12]]], ["LINE", [[17, 18]]]], "pf": [], "cf": []}
+    return [m2, m3]
+
+
+def big_mesh(rng, nx, ny, dim):
+    """nx x ny lattice (> 1000 points) of quads with the last column split into triangles; irregular, well separated
+    coordinates; dim 2, or 3 = embedded in the y-z plane"""
+    xs = [1.0 * i + 0.25 * rng.random() for i in range(nx + 1)]
+    ys = [1.0 * j + 0.25 * rng.random() for j in range(ny + 1)]
+    pts = [([x, y] if dim == 2 else [-2.0, x, y]) for y in ys for x in xs]
+    idx = lambda i, j: j * (nx + 1) + i          # noqa: E731
+    quads, tris = [], []
+    for j in range(ny):
+        for i in range(nx):
+            c = [idx(i, j), idx(i + 1, j), idx(i + 1, j + 1), idx(i, j + 1)]
+            if i == nx - 1:
+                tris += [[c[0], c[1], c[2]], [c[0], c[2], c[3]]]
+            else:
+                quads.append(c)
+    return {"dim": dim, "points": pts, "cells": [["QUAD", quads], ["TRIANGLE", tris]], "pf": [], "cf": []}
+
+
+def insert_orphans(rng, lm, where, k):
+    """k unconnected points inserted at the front / in the middle / at the end / scattered (the indices of all later points
+    shift); every point field gets (arbitrary) values there"""
+    lm = copy.deepcopy(lm)
+    n = len(lm["points"])
+    maxc = max([abs(c) for p in lm["points"] for c in p] + [0.0]) or 1.0     # inside the mesh's own coordinate scale: the
+    # mesh tolerance is relative to max |coordinate|, a far-away orphan would change which points count as distinct
+    pos = {"first": [0] * k, "middle": [n // 2] * k, "last": [n] * k,
+           "scattered": sorted(rng.randint(0, n) for _ in range(k))}[where]
+    new_pts, new_of_old, slots = [], {}, []
+    q = 0
+    for old in range(n + 1):
+        while q < k and pos[q] == old:
+            slots.append(len(new_pts))
+            new_pts.append([rng.uniform(-1, 1) * maxc for _ in range(lm["dim"])])
+            q += 1
+        if old < n:
+            new_of_old[old] = len(new_pts)
+            new_pts.append(lm["points"][old])
+    lm["cells"] = [[t, [[new_of_old[i] for i in row] for row in rows]] for t, rows in lm["cells"]]
+    for f in lm["pf"]:
+        rs = meshgen._rowsize(f["tail"])
+        fill = rand_vals(rng, f["dt"], rs * k)
+        v, old = [], 0
+        for newi in range(len(new_pts)):
+            if newi in slots:
+                j = slots.index(newi)
+                v += fill[j * rs:(j + 1) * rs]
+            else:
+                v += f["v"][old * rs:(old + 1) * rs]
+                old += 1
+        f["v"] = v
+    lm["points"] = new_pts
+    return lm
+
+
+def _p6_fields(rng, lm, names, dtypes=MESH_DT):
+    """point and cell fields under the given names (a name may be used for both kinds)"""
+    npnt, d = len(lm["points"]), lm["dim"]
+    lm["pf"], lm["cf"] = [], []
+    for name in names:
+        dt = rng.choice(dtypes)
+        if rng.random() < 0.7:
+            tail = rng.choice([[], [], [d], [1]])
+            lm["pf"].append({"name": name, "dt": dt, "tail": tail, "v": rand_vals(rng, dt, npnt * meshgen._rowsize(tail))})
+        if rng.random() < 0.45:
+            tail = rng.choice([[], [], [d]])
+            for t, rows in lm["cells"]:
+                lm["cf"].append({"name": name, "ctype": t, "dt": dt, "tail": tail,
+                                 "v": rand_vals(rng, dt, len(rows) * meshgen._rowsize(tail))})
+    return lm
+
+
+def gen_p6_mesh_case(rng, i, manyt, variant=None):
+    """directed, by turns:
+    permuted   - src = relabel(ref) (points, cells, type blocks permuted) + unconnected points inserted at the front / middle /
+                 end / scattered on either or both sides + value differences, dtype mixes, one-sided fields; both sides through
+                 sort (the CLI's path) - in process, all dtypes
+    mixed-view - one side a TransformedMeshFields view, the other one plain MeshFields stored in the very same order
+                 (either role), incl. sort_points / strip_orphan_points views
+    big        - > 1000 points / cells; differences only at a few positions incl. first / last / 1000 / 1023 / 1024
+    many       - 60-130 fields under adversarial names on meshes with 5-6 cell types incl. pixel+quad / voxel+hexahedron"""
+    variant = variant or ["permuted", "mixed-view", "permuted"][i % 3]
+    tags = ["p6-" + variant]
+    if variant in ("permuted", "mixed-view"):
+        for _ in range(40):
+            ref, mt = gen_base_mesh(rng, max_points=40, allow_duplicates=False, allow_orphans=False)
+            if well_separated(ref):
+                break
+        regen_fields(rng, ref)
+        src = meshgen.relabel(rng, ref) if (variant == "permuted" or rng.random() < 0.6) else copy.deepcopy(ref)
+        tags += [f"style-{mt['style']}", f"dim-{mt['dim']}", f"types-{len(ref['cells'])}"]
+        tags += vary_fields(rng, ref, src)
+        if variant == "permuted":
+            side = ["src", "ref", "both", "none"][(i // 3) % 4]
+            where = ["first", "middle", "last", "scattered"][(i // 12) % 4]
+            if side in ("src", "both"):
+                src = insert_orphans(rng, src, where, rng.randint(1, 3))
+            if side in ("ref", "both"):
+                ref = insert_orphans(rng, ref, rng.choice(["first", "middle", "last", "scattered"]), rng.randint(1, 3))
+            tags += ["p6-orphans-" + side] + (["p6-orphans-at-" + where] if side in ("src", "both") else [])
+            c = {"kind": "mesh", "ref": ref, "src": src, "wrap": "sort"}
+        else:
+            how = rng.choice(["sort", "sort", "sort_cells", "sort_points", "strip_orphan_points"])
+            if how == "strip_orphan_points":
+                src = insert_orphans(rng, src, rng.choice(["first", "middle", "scattered"]), 2)
+            view_is_src = rng.random() < 0.5
+            c = {"kind": "mesh", "ref": ref, "src": src, "wrap": how,
+                 "wrap_s": how if view_is_src else "m:" + how, "wrap_r": "m:" + how if view_is_src else how}
+            tags += ["p6-view-is-" + ("source" if view_is_src else "reference"), "p6-view-" + how]
+        return c, tags + ["wrap-" + c["wrap"]]
+    if variant == "big":
+        dim = rng.choice([2, 3])
+        ref = big_mesh(rng, rng.randint(34, 40), rng.randint(28, 32), dim)
+        npnt = len(ref["points"])
+        ncell = {t: len(rows) for t, rows in ref["cells"]}
+        for name, dt, tail in (("u", "f64", []), ("v", "f32", [dim]), ("id", "i32", []), ("m", "u8", [])):
+            ref["pf"].append({"name": name, "dt": dt, "tail": tail, "v": rand_vals(rng, dt, npnt * meshgen._rowsize(tail))})
+        for name, dt in (("c", "f64"), ("k", "i64")):
+            for t, rows in ref["cells"]:
+                ref["cf"].append({"name": name, "ctype": t, "dt": dt, "tail": [], "v": rand_vals(rng, dt, len(rows))})
+        src = copy.deepcopy(ref)
+        for f in src["pf"] + src["cf"]:
+            n = len(f["v"])
+            for pos in {0, n - 1, min(n - 1, 999), min(n - 1, 1000), min(n - 1, 1023), min(n - 1, 1024), rng.randrange(n)}:
+                if rng.random() < 0.6:
+                    f["v"][pos] = perturb(rng, [f["v"][pos]] * 3, f["dt"])[0]
+        if rng.random() < 0.5:
+            src["pf"].append({"name": "s_only", "dt": "i32", "tail": [], "v": rand_vals(rng, "i32", npnt)})
+        wrap = "plain"
+        if rng.random() < 0.5:
+            src, wrap = meshgen.relabel(rng, src), "sort"
+        return {"kind": "mesh", "ref": ref, "src": src, "wrap": wrap}, tags + [f"dim-{dim}", "p6-points>1000", "wrap-" + wrap]
+    # many
+    ref = copy.deepcopy(manyt[i % len(manyt)])
+    names = rng.sample(NAMES_P6, rng.randint(20, len(NAMES_P6))) + [f"f{k}" for k in range(rng.randint(40, 90))]
+    _p6_fields(rng, ref, names)
+    src = copy.deepcopy(ref)
+    tags += vary_fields(rng, ref, src)
+    wrap = "plain"
+    if rng.random() < 0.4:
+        src, wrap = meshgen.relabel(rng, src), "sort"
+    tags += [f"types-{len(ref['cells'])}", "p6-compatible-pair-in-one-mesh", f"p6-nfields>={10 * ((len(ref['pf']) + len(ref['cf'])) // 10)}"]
+    return {"kind": "mesh", "ref": ref, "src": src, "wrap": wrap}, tags + ["wrap-" + wrap]
+
+
+def gen_p6_table_case(rng, i):
+    """directed: > 1000 rows (equal / different row counts, differences at a few positions incl. the last common row), and
+    60-120 columns under adversarial names"""
+    if i % 2 == 0:
+        n1 = rng.randint(1001, 1100)
+        n2 = n1 if rng.random() < 0.5 else rng.choice([n1 - 1, n1 + 1, 1000, 1024, n1 - 300, 7])
+        names = ["x", "y", "u v"][:rng.randint(1, 3)]
+        dts = ["f64", "f32", "i64"]
+        tag = "p6-rows>1000"
+    else:
+        n1 = rng.choice([1, 2, 5])
+        n2 = rng.choice([n1, n1, 3])
+        names = rng.sample(NAMES_P6, rng.randint(20, len(NAMES_P6))) + [f"f{k}" for k in range(rng.randint(40, 80))]
+        dts = ["f64", "f32", "i64", "i32", "u8"]
+        tag = "p6-ncols>=60"
+    ref = {"n": n1, "idx": None, "cols": []}
+    src = {"n": n2, "idx": None, "cols": []}
+    for name in names:
+        dt = rng.choice(dts)
+        v = rand_vals(rng, dt, n1)
+        ref["cols"].append({"name": name, "dt": dt, "v": v})
+        r = rng.random()
+        if r < 0.1 and len(names) > 3:
+            continue
+        w = (v * (n2 // max(n1, 1) + 1))[:n2] if n1 else rand_vals(rng, dt, n2)
+        m = min(n1, n2)
+        for pos in {0, m - 1, min(m - 1, 999), min(m - 1, 1000), rng.randrange(max(m, 1))}:
+            if 0 <= pos < n2 and rng.random() < 0.6:
+                w[pos] = perturb(rng, [w[pos]] * 3, dt)[0]
+        src["cols"].append({"name": name, "dt": dt, "v": w})
+    if rng.random() < 0.5:
+        src["cols"].append({"name": "s only", "dt": "i64", "v": rand_vals(rng, "i64", n2)})
+    rng.shuffle(src["cols"])
+    if n2 and rng.random() < 0.3:
+        idx = list(range(n2))
+        rng.shuffle(idx)
+        src["idx"] = idx
+    return {"kind": "table", "ref": ref, "src": src}, [tag, f"rows-{'equal' if n1 == n2 else 'differ'}"]
+
+
+P6_LAYOUTS = [
+    {"sdir": "results", "rdir": "reference", "sname": "out", "rname": "out"},                 # same base name, two directories
+    {"sdir": "run 1/res ults", "rdir": "", "sname": "my result.v2", "rname": "ref.v2"},       # blanks, several dots
+    {"sdir": "", "rdir": "deep/er/ref", "sname": "res", "rname": "res", "rel": True},         # relative paths, cwd = work dir
+    {"sdir": "a/b", "rdir": "a", "sname": "diff_x", "rname": "x", "rel": True},               # source name starts with diff_
+    {"sdir": "émile", "rdir": "émile", "sname": "Δt=0.1", "rname": "reference-Δt=0.1"},       # unicode
+    {"sdir": "s", "rdir": "r", "sname": ".hidden", "rname": "UPPER.VTU"},
+]
+P6_OPTS = [[], ["--exclude-fields", "*"], ["--include-fields", "p0"], ["-rtol", "1e-7", "-atol", "1e-12"],
+           ["--ignore-missing-source-fields", "--ignore-missing-reference-fields"], ["--disable-mesh-orphan-point-removal"],
+           ["--verbosity", "0"], ["--exclude-fields", "p*", "--exclude-fields", "c*"]]
+
+
+def gen_p6_cli_case(rng, i):
+    """directed: the CLI's --diff with odd file names / directories (the diff must appear next to the SOURCE file), option
+    combinations that must not influence the diff (filters, ignore-missing, verbosity, tolerances far below the point
+    distances - the tolerances also steer mesh equality / sorting, so large ones leave "identical or permuted meshes"), and unconnected points
+    anywhere (not only appended) on either side together with value differences"""
+    c, tags = gen_cli_mesh_case(rng)
+    c["layout"] = P6_LAYOUTS[i % len(P6_LAYOUTS)]
+    c["opts"] = P6_OPTS[(i // len(P6_LAYOUTS) + i) % len(P6_OPTS)]
+    where = ["first", "middle", "scattered", "last", "none"][i % 5]
+    if where != "none":
+        key = "a" if (i // 5) % 2 == 0 else "b"
+        c[key] = insert_orphans(rng, c[key], where, rng.randint(1, 2))
+        tags.append(f"p6-cli-orphans-{'source' if key == 'a' else 'reference'}-{where}")
+    return c, tags + ["p6-cli", f"p6-cli-layout-{i % len(P6_LAYOUTS)}", "p6-cli-opts-" + ("+".join(o for o in c["opts"] if o.startswith("-")) or "none")]
+
+
 # ---------------------------------------------------------------- driver of the check
 
 def run(ctx):
@@ -1048,6 +1344,27 @@ def run(ctx):
             c, t = gen_mesh_case(rng)
             cs.append(c); ts.append(t)
         eval_mesh_cases(ctx, cs, ts)
+    # (2b) phase 6 directed mesh batch
+    manyt = many_type_meshes()
+    n_p6 = ctx.scale(96, 2400)
+    plan = [(i, None) for i in range(n_p6)] + [(i, "many") for i in range(ctx.scale(2, 80))] + \
+           [(i, "big") for i in range(ctx.scale(1, 20))]
+    for i0 in range(0, len(plan), 48):
+        cs, ts = [], []
+        for i, var in plan[i0:i0 + 48]:
+            c, t = gen_p6_mesh_case(rng, i, manyt, var)
+            cs.append(c); ts.append(t)
+        eval_mesh_cases(ctx, cs, ts)
+    cs, ts = [], []
+    for i in range(ctx.scale(2, 100)):
+        c, t = gen_p6_table_case(rng, i)
+        cs.append(c); ts.append(t)
+    eval_table_cases(ctx, cs, ts)
+    ctx.notes.append("phase-6 directed parts: in-process sort(src).diff_to(sort(ref)) for src = relabel(ref) with unconnected points "
+                     "anywhere on either side; a transformed view against a plain data set stored in the same order (either role); "
+                     "> 1000 points / rows; 60-130 fields under adversarial names on meshes with 5-6 cell types; every diff_to is "
+                     "called twice and the operands are inspected afterwards; --diff with odd file names / directories / relative "
+                     "paths / option combinations / unconnected points anywhere")
     # (3) tables
     cs, ts = [], []
     for _ in range(ctx.scale(500, 20000)):
@@ -1060,6 +1377,11 @@ def run(ctx):
         cs, ts = [], []
         for _ in range(ctx.scale(60, 2500)):
             c, t = gen_cli_mesh_case(rng)
+            cs.append(c); ts.append(t)
+        eval_cli_mesh_cases(ctx, cs, ts, workroot)
+        cs, ts = [], []
+        for i in range(ctx.scale(36, 480)):
+            c, t = gen_p6_cli_case(rng, i)
             cs.append(c); ts.append(t)
         eval_cli_mesh_cases(ctx, cs, ts, workroot)
         cs, ts = [], []
